@@ -226,6 +226,7 @@ class _Sched:
         self.res = res
         self.enc = enc
         self.tokens = tokens
+        self.cw = float(sch.get("cw", CW))
         self.stream = b"".join(bytes.fromhex(t["hex"]) for t in tokens)
         self.sch = sch
         self.log_sink = log_sink
@@ -252,7 +253,7 @@ class _Sched:
             tty.read_caps = list(sch.get("read_caps", []))
             out = W.SimTTYOut(w, tty)
             screen = prd.Screen(input=W.SimTTYIn(tty), output=out)
-            screen.set_input_timeouts(max_wait=None, complete_wait=CW)
+            screen.set_input_timeouts(max_wait=None, complete_wait=self.cw)
             # fragments
             stream = self.stream
             cuts = sorted({c for c in sch.get("cuts", []) if 0 < c < len(stream)})
@@ -269,7 +270,9 @@ class _Sched:
             for wt in sch.get("winch", []):
                 w.schedule(0.25 + float(wt), "sigwinch", lambda: signal.getsignal(signal.SIGWINCH)(signal.SIGWINCH, None))
                 res.fault("sigwinch_between_fragments")
-            t_end = last_t + CW + 0.5
+            # every wake-up that finds the sequence still incomplete (a window resize does that) re-arms the completion
+            # timer: the bound is complete_wait after the last wake-up, so one extra period per scheduled resize
+            t_end = last_t + self.cw * (1 + len(sch.get("winch", []))) + 0.5
             w.log.add("cfg", [self.enc, self.kind, self.mode, stream.hex(), cuts, gaps])
 
             events: list = []
@@ -332,7 +335,7 @@ class _Sched:
                     screen.unhook_event_loop(lp)
                 else:
                     # synchronous path: Screen.get_input() with max_wait
-                    screen.set_input_timeouts(max_wait=0.25, complete_wait=CW)
+                    screen.set_input_timeouts(max_wait=0.25, complete_wait=self.cw)
                     try:
                         n_calls = 0
                         while w.rel() < t_end and n_calls < 200:
@@ -475,23 +478,27 @@ class InputEngine(Engine):
         enc = rng.choice(["utf8", "utf8", "wide", "narrow"])
         tokens = gen_tokens(rng, enc)
         n = sum(len(t["hex"]) // 2 for t in tokens)
-        schedules = [{"cuts": [], "gaps": [], "loop": "select"}]
+        # the application's completion timeout (set_input_timeouts): the default and two other values
+        cw = rng.choice([CW, CW, CW / 2, 4 * CW])
+        gaps_grid = [0.0, TICK, cw - TICK, cw, cw + TICK, 1.0]
+        schedules = [{"cuts": [], "gaps": [], "loop": "select", "cw": cw}]
         for c in range(1, n):
-            schedules.append({"cuts": [c], "gaps": [TICK], "loop": "select"})
-            schedules.append({"cuts": [c], "gaps": [CW + TICK], "loop": "select"})
+            schedules.append({"cuts": [c], "gaps": [TICK], "loop": "select", "cw": cw})
+            schedules.append({"cuts": [c], "gaps": [cw + TICK], "loop": "select", "cw": cw})
         for _ in range(rng.randint(2, 5)):
             k = rng.randint(1, min(5, max(1, n - 1)))
             cuts = sorted(rng.sample(range(1, n), k)) if n > 1 else []
             sch = {
                 "cuts": cuts,
-                "gaps": [rng.choice(GAPS) for _ in cuts],
+                "gaps": [rng.choice(gaps_grid) for _ in cuts],
                 "loop": rng.choice(loops.KINDS) if rng.random() < 0.7 else "select",
                 "tiebreak": [rng.randrange(4) for _ in range(6)],
+                "cw": cw,
             }
             if rng.random() < 0.3:
                 sch["read_caps"] = [rng.choice([0, 1, 1, 2, 3]) for _ in range(rng.randint(1, 6))]
             if rng.random() < 0.15:
-                sch["winch"] = [rng.choice([0.0, TICK, CW, 0.5])]
+                sch["winch"] = [rng.choice([0.0, TICK, cw, 0.5])]
             if rng.random() < 0.2:
                 sch["mode"] = "sync"
             schedules.append(sch)
